@@ -633,6 +633,10 @@ func c02HexPrefix(c *eng.Ctx, r *eng.Report) {
 					}
 					if k, ok := eng.ConstInt(x.X); ok {
 						have[fmt.Sprintf("%d %s", k, x.Op)] = true
+						switch x.Op { // commutative: the side the constant stands on is spelling
+						case token.OR, token.AND, token.ADD, token.MUL, token.XOR, token.EQL, token.NEQ:
+							have[fmt.Sprintf("%s %d", x.Op, k)] = true
+						}
 					}
 				case *ssa.Store:
 					if k, ok := eng.ConstInt(x.Val); ok {
